@@ -77,6 +77,13 @@ def main(tier, replay=None):
         cfgs = cfgs[::7] + [DEFAULT_CFG]
     progs, files = generate(96 if quick else 2000, 12, 3 if quick else 4, "c08")
     reals = real_results(files, cfgs, "c08", with_runs=False)
+    # recorded inputs of known findings are always compiled (default configuration), so that each listed
+    # finding is reported deterministically and its disappearance after a repair is visible
+    import glob as _glob
+    from lib import VERIF as _VERIF
+    fnd = [(p_, []) for p_ in sorted(_glob.glob(os.path.join(_VERIF, "corpus", "findings", "C08", "*.cairo")))]
+    if fnd:
+        reals = reals + real_results(fnd, [DEFAULT_CFG], "c08fnd", with_runs=False)
     n_ok = n_diag = 0
     for job in reals:
         if job["diag_errors"]:
@@ -88,7 +95,8 @@ def main(tier, replay=None):
             if s not in job["stages"] and not bad:
                 bad[s] = "missing"
         if bad:
-            chk.violation({"kind": "error_free_program_fails", "stage": sorted(bad)[0], "cfg": job["cfg"], "file": job["id"].split("@")[0]},
+            chk.violation({"kind": "error_free_program_fails", "stage": sorted(bad)[0], "cfg": job["cfg"], "file": job["id"].split("@")[0],
+                           "msg": str(bad[sorted(bad)[0]])[:60]},
                           {"source": open(job["path"]).read() if "path" in job else job["id"], "cfg": job["cfg"], "stages": job["stages"]},
                           f"no error diagnostics for {job['id']} under {job['cfg']}, yet stages fail: {bad}")
         else:
